@@ -339,6 +339,8 @@ def run(ctx):
 
 
 def _replay_chunk(chunk):
+    import faulthandler
+    faulthandler.dump_traceback_later(600, exit=True)      # a stuck replay must end the check (exit 2), never hang it
     from vlib.par import Collector
     col = Collector()
     recs = []
